@@ -1036,6 +1036,11 @@ pub fn c18(c: &Collector, g: &mut Guard) {
         }
         refine_all(c, "C18", "E4.stops", t, local);
     });
+    // every TBC selector value the parser can deliver, from a few stop-set bases
+    let tb: Vec<Base> = bases.iter().step_by((bases.len() / 12).max(1)).cloned().collect();
+    sweep(c, &tb, |_| (0..=9999u32).map(|h| Op::Tbc(Some(h))).collect(), |c, t, local| {
+        refine_all(c, "C18", "E4.all-selectors", t, local);
+    });
     // (3) width changes between setting and using a stop
     let mut wb: Vec<Base> = Vec::new();
     for w0 in [10u32, 20, 132] {
@@ -1631,6 +1636,32 @@ pub fn c16(c: &Collector, g: &mut Guard) {
         |c, t, local| {
             local.count("large_geometry_transitions");
             c16_judge(c, t, "E2.depth1.large", local);
+        },
+    );
+    // DECCOLM on a screen wider than 132 columns, then grow again: nothing may come back
+    let mut wb: Vec<Base> = Vec::new();
+    for b in lb.iter().filter(|b| b.columns > 132).step_by(3) {
+        for tail in [vec![Op::Sm(vec![3], true)], vec![Op::Sm(vec![3], true), Op::Draw("k".into())], vec![Op::Sm(vec![3], true), Op::Rm(vec![3], true)]] {
+            let mut s2 = b.screen.clone();
+            let mut ok = true;
+            for op in &tail {
+                ok &= apply(&mut s2, op).is_ok();
+            }
+            if ok && crate::snapshot::wellformed(&s2).is_empty() {
+                let mut script = b.script.clone();
+                script.extend(tail);
+                wb.push(Base { columns: b.columns, lines: b.lines, script, screen: s2 });
+            }
+        }
+    }
+    c.count("wide_deccolm_bases", wb.len() as u64);
+    sweep(
+        c,
+        &wb,
+        |b| vec![Op::Resize(None, Some(200)), Op::Resize(None, Some(260)), Op::Resize(Some(b.screen.lines + 1), Some(133)), Op::Resize(None, Some(131))],
+        |c, t, local| {
+            local.count("wide_deccolm_resizes");
+            c16_judge(c, t, "E2.deccolm-wide", local);
         },
     );
     // sequences of resizes interleaved with the residue makers
